@@ -18,6 +18,7 @@ import (
 	"runtime/debug"
 	"sort"
 	"strings"
+	"sync/atomic"
 	"testing"
 	"time"
 
@@ -66,7 +67,7 @@ func TestVerifC18Sockets(t *testing.T) {
 	rep := report.New("C18 sockets after Close")
 	defer rep.Write()
 	kinds := []string{"udp", "udp-truncated(tcp fallback)", "tcp", "tcp+pipeline", "tls", "tls+pipeline", "https", "h3", "quic"}
-	rep.Rule = fmt.Sprintf("real NewUpstream for every kind %v against local servers on loopback: baseline socket set, one exchange - successful against a healthy server (so that connections exist and idle in the pool), failing during the TLS handshake against a server whose certificate is not trusted or that does not speak TLS - then Close (twice), then up to 8 s of settling; "+
+	rep.Rule = fmt.Sprintf("real NewUpstream for every kind %v against local servers on loopback: baseline socket set, one exchange - successful against a healthy server (so that connections exist and idle in the pool), failing during the TLS handshake against a server whose certificate is not trusted or that does not speak TLS, given up by the caller after 1 s against a server that takes the query and never answers - then Close (twice), then up to 8 s of settling; "+
 		"oracle: the process's socket inode set equals the baseline (no upstream socket, pooled keep-alive connection, half-dialled connection or quic UDP socket survives Close; the garbage collector is off during the audit so that finalizers cannot hide a connection nobody closed); Close returns and is idempotent; distinct = distinct upstream kinds", kinds)
 	if sh, _ := report.Shard(); sh != 0 {
 		rep.Eval("idle-shard")
@@ -78,6 +79,7 @@ func TestVerifC18Sockets(t *testing.T) {
 		t.Fatal(err)
 	}
 	truncateUDP := false
+	var silent atomic.Bool // the servers read queries and never answer
 	// DNS over UDP + TCP on the same port
 	tl, err := net.Listen("tcp", "127.0.0.1:0")
 	if err != nil {
@@ -96,6 +98,9 @@ func TestVerifC18Sockets(t *testing.T) {
 			n, a, err := ul.ReadFrom(b)
 			if err != nil {
 				return
+			}
+			if silent.Load() {
+				continue
 			}
 			r := c18Reply(b[:n])
 			if truncateUDP && len(r) > 3 {
@@ -121,6 +126,9 @@ func TestVerifC18Sockets(t *testing.T) {
 					if _, err := io.ReadFull(c, b); err != nil {
 						return
 					}
+					if silent.Load() {
+						continue
+					}
 					c.Write(refdns.Frame(c18Reply(b)))
 				}
 			}()
@@ -136,6 +144,13 @@ func TestVerifC18Sockets(t *testing.T) {
 	dohHandler := http.HandlerFunc(func(w http.ResponseWriter, r *http.Request) {
 		q := r.URL.Query().Get("dns")
 		b, _ := b64dec(q)
+		if silent.Load() {
+			select {
+			case <-r.Context().Done():
+			case <-time.After(60 * time.Second):
+			}
+			return
+		}
 		w.Header().Set("Content-Type", "application/dns-message")
 		w.Write(c18Reply(b))
 	})
@@ -173,6 +188,13 @@ func TestVerifC18Sockets(t *testing.T) {
 						go func() {
 							b, _ := io.ReadAll(st)
 							fs, _ := env.SplitFrames(b)
+							if silent.Load() {
+								select {
+								case <-c.Context().Done():
+								case <-time.After(60 * time.Second):
+								}
+								return
+							}
 							if len(fs) == 1 {
 								st.Write(refdns.Frame(c18Reply(fs[0])))
 							}
@@ -198,8 +220,16 @@ func TestVerifC18Sockets(t *testing.T) {
 	for _, k := range []string{"tls", "tls+pipeline", "https"} {
 		variants = append(variants, variant{k, "not-a-tls-server"})
 	}
+	// a peer that takes the query and never answers: the caller gives up after 1 s, the exchange is still "in flight" inside
+	// the transport (waiting for the reply, or - DoH - running on its own 6 s budget) when Close is called
+	for _, k := range kinds {
+		if k != "udp-truncated(tcp fallback)" {
+			variants = append(variants, variant{k, "silent"})
+		}
+	}
 	for _, vr := range variants {
 		kind := vr.kind
+		silent.Store(vr.peer == "silent")
 		var addr string
 		truncateUDP = false
 		switch kind {
@@ -262,13 +292,20 @@ func TestVerifC18Sockets(t *testing.T) {
 				rep.Violate("C18:sockets:new-upstream:"+kind, err.Error(), nil)
 				return
 			}
-			ctx, cancel := context.WithTimeout(context.Background(), 5*time.Second)
+			xd := 5 * time.Second
+			if vr.peer == "silent" {
+				xd = time.Second
+			}
+			ctx, cancel := context.WithTimeout(context.Background(), xd)
 			m, xerr := u.ExchangeContext(ctx, query)
 			cancel()
+			if m != nil && vr.peer == "silent" {
+				rep.Violate("C18:sockets:reply-from-silent-peer:"+kind, "the exchange returned a message although the server never answered", nil)
+			}
 			if m == nil && vr.peer == "healthy" {
 				rep.Note(fmt.Sprintf("%s: exchange against the local server failed (%v); socket audit still performed", kind, xerr))
 			}
-			if m != nil && vr.peer != "healthy" {
+			if m != nil && vr.peer != "healthy" && vr.peer != "silent" {
 				rep.Violate("C18:sockets:exchange-succeeded-with-bad-peer:"+kind, "the exchange succeeded although the peer cannot be authenticated", nil)
 			}
 			done := make(chan any, 1)
